@@ -60,6 +60,23 @@ CLAIMED["C13"] = dict(
     technique="Coq proof (composable step invariant over all input lists) + model/implementation correspondence",
 )
 
+CLAIMED["C16"] = dict(
+    text="For every list of H.264 NAL units (each >= 2 bytes, type 1..23) and every VP8 buffer and picture id "
+         "0..32767 the model of the packetiser terminates and raises nothing; payloads are <= the GENERATED "
+         "PACKET_MAX (= 1300); depayloading them reproduces the bitstream exactly; FU-A fragments carry one S first, "
+         "one E last and the original F/NRI/type bits; STAP-A packets hold 2..9 whole units; only the first VP8 "
+         "payload is a partition start and every payload carries the picture id; descriptor serialise-then-parse is "
+         "the identity for every in-range field combination; _split_bitstream inverts joining with 3-/4-byte start "
+         "codes; both descriptor parsers return a value or ValueError on every byte string (11 theorems, all closed).",
+    design_ref="5 / C16",
+    note="Model/H264.v and Model/Vp8.v are hand transcriptions tied to the code by the differential run (incl. a "
+         "malformed stream: every prefix, bit flips, length-field edits, random bytes) and by the generated "
+         "constants. Float math.ceil, the depayload dispatch and Encoder.pack are not modelled; an end-to-end "
+         "oracle on real av.Packet objects exercises them.",
+    technique="Coq proof (induction, loop invariants with fuel, finite enumeration of bit fields by vm_compute) + "
+              "extracted-model/implementation correspondence",
+)
+
 NOT_YET = "check not built yet in this development snapshot (planned, see DESIGN.md section 10)"
 
 
